@@ -267,14 +267,16 @@ Definition field_kept (target : Z) (fd : ifield) : bool := negb (field_skipped t
 Definition is_named (t : texpr) (n : name) : bool := match t with TNamed x => name_eqb x n | _ => false end.
 
 (* descriptor of one field, given the descriptor [d] of its type *)
-Definition elab_meta (intlit : bool) (p : program) (o : popts) (tf : ifile) (kind : Z) (root : bool) (fd : ifield) (d : tdesc) : fmeta :=
+Definition elab_meta_code (intlit : bool) (p : program) (o : popts) (tf : ifile) (kind : Z) (root : bool) (fd : ifield) (code : Z) : fmeta :=
   let isreq := o_base o && root && is_named (f_type fd) n_base_Base in
   let isresp := o_base o && root && is_named (f_type fd) n_base_BaseResp in
   let r0 := if kind =? 1 then 2 else f_req fd in                (* thriftgo makes every union field optional *)
   FMeta (f_id fd) (f_name fd) (alias_of root (o_bodyfast o) (f_name fd) (f_annos fd)) (req_of r0)
         (bit_of (bitmap_req r0 (o_optbitmap o) (isreq || isresp)))
-        (if o_usedefault o then make_default intlit 8 p tf (desc_code d) (f_def fd) else None)
+        (if o_usedefault o then make_default intlit 8 p tf code (f_def fd) else None)
         isreq isresp.
+Definition elab_meta (intlit : bool) (p : program) (o : popts) (tf : ifile) (kind : Z) (root : bool) (fd : ifield) (d : tdesc) : fmeta :=
+  elab_meta_code intlit p o tf kind root fd (desc_code d).
 
 (* the loop over st.Fields: [rec] elaborates a field type *)
 Fixpoint elab_fields (rec : texpr -> option tdesc) (intlit : bool) (p : program) (o : popts) (tf : ifile) (kind : Z) (root : bool)
